@@ -36,16 +36,17 @@ _RE_TEMPORAL = re.compile(r"Error: Temporal propert(?:y|ies) (.*?) (?:was|were) 
 # ---------------------------------------------------------------------------------------------
 
 def model_cfg(name, dev=(), threads=1, wc=2, ka=2, nconn=2, maxreq=1, faults=0, term=True, live=False,
-              obs=False, invariants=None):
+              obs=False, invariants=None, props=None):
     path = os.path.join(OUT, "cfg", name + ".cfg")
     os.makedirs(os.path.dirname(path), exist_ok=True)
-    inv = list(invariants if invariants is not None else SAFETY_INV + ["NoPendingDroppedAtExit"])
+    inv = list(invariants if invariants is not None else SAFETY_INV)
     tlc.write_cfg(path, spec="Spec" if live else "SafetySpec",
                   constants={"Threads": threads, "WC": wc, "KA": ka, "NConn": nconn, "MaxReq": maxreq,
                              "Faults": faults, "AllowTerm": term, "Dev": set(dev), "Obs": obs,
                              "MaxLevel": 600},
                   invariants=inv,
-                  properties=["NoCloseWhileHandled"] + (LIVENESS if live else []),
+                  properties=(props if props is not None else ["NoCloseWhileHandled", "NoPendingDroppedAtExit"])
+                  + (LIVENESS if live else []),
                   constraints=["LevelBound"])
     return path
 
@@ -73,19 +74,19 @@ def design_jobs(ctx):
     jobs = []
     if ctx.quick:
         jobs.append(("live_design", dict(live=True, term=False), 2, None))
-        jobs.append(("live_asis", dict(live=True, term=False, dev=CURRENT_TREE_DEV), 2, EXPECTED_DEV_LIVENESS))
+        jobs.append(("live_asis", dict(live=True, term=False, dev=CURRENT_TREE_DEV, props=["NoCloseWhileHandled"]), 2, EXPECTED_DEV_LIVENESS))
         jobs.append(("safe_t1w2k2", dict(faults=1), 3, None))
         jobs.append(("safe_t2w3k2", dict(threads=2, wc=3, faults=1), 3, None))
         jobs.append(("safe_t1w1k0", dict(wc=1, ka=0, faults=1), 2, None))
         jobs.append(("safe_t2w2k0_n3", dict(threads=2, wc=2, ka=0, nconn=3), 3, None))
-        jobs.append(("safe_asis", dict(threads=2, wc=3, dev=CURRENT_TREE_DEV, invariants=SAFETY_INV), 2, None))
-        jobs.append(("drop_asis", dict(dev=["DropUndispatchedOnExit"], invariants=["NoPendingDroppedAtExit"]),
+        jobs.append(("safe_asis", dict(threads=2, wc=3, dev=CURRENT_TREE_DEV, props=["NoCloseWhileHandled"]), 2, None))
+        jobs.append(("drop_asis", dict(dev=["DropUndispatchedOnExit"], invariants=[], props=["NoPendingDroppedAtExit"]),
                      2, {"NoPendingDroppedAtExit"}))
     else:
         jobs.append(("live_design", dict(live=True, term=True), 2, None))
         jobs.append(("live_design_t2", dict(live=True, term=False, threads=2, wc=3), 2, None))
         jobs.append(("live_design_w1", dict(live=True, term=False, wc=1), 2, None))
-        jobs.append(("live_asis", dict(live=True, term=False, dev=CURRENT_TREE_DEV), 2, EXPECTED_DEV_LIVENESS))
+        jobs.append(("live_asis", dict(live=True, term=False, dev=CURRENT_TREE_DEV, props=["NoCloseWhileHandled"]), 2, EXPECTED_DEV_LIVENESS))
         for t in (1, 2):
             for w in (1, 2, 3):
                 for k in (0, 2):
@@ -93,8 +94,8 @@ def design_jobs(ctx):
                                  dict(threads=t, wc=w, ka=k, faults=1, maxreq=2), 3, None))
         jobs.append(("safe_t1w2k2_n3", dict(nconn=3), 4, None))
         jobs.append(("safe_t2w2k0_n3", dict(threads=2, wc=2, ka=0, nconn=3), 3, None))
-        jobs.append(("safe_asis", dict(threads=2, wc=3, faults=1, dev=CURRENT_TREE_DEV, invariants=SAFETY_INV), 3, None))
-        jobs.append(("drop_asis", dict(dev=["DropUndispatchedOnExit"], invariants=["NoPendingDroppedAtExit"]),
+        jobs.append(("safe_asis", dict(threads=2, wc=3, faults=1, dev=CURRENT_TREE_DEV, props=["NoCloseWhileHandled"]), 3, None))
+        jobs.append(("drop_asis", dict(dev=["DropUndispatchedOnExit"], invariants=[], props=["NoPendingDroppedAtExit"]),
                      2, {"NoPendingDroppedAtExit"}))
     return jobs
 
@@ -224,7 +225,7 @@ def scenarios():
 
 def sim_behaviours(ctx, label, t, w, k, num, depth, term, faults):
     cfg = model_cfg("GThread_sim_" + label, dev=CURRENT_TREE_DEV, threads=t, wc=w, ka=k, nconn=3, maxreq=2,
-                    faults=faults, term=term, obs=True, invariants=[])
+                    faults=faults, term=term, obs=True, invariants=[], props=[])
     behs, r = tlc.simulate_behaviours("GThread", cfg, num=num, depth=depth, seed=ctx.seed + 1,
                                       name="GThread_sim_" + label, timeout=300)
     return behs
